@@ -22,6 +22,8 @@ pub enum T {
     Int(String),
     /// binary literal, lower-case hex of the bytes
     Bin(String),
+    /// single-line string without holes: its value
+    Str(String),
     /// tuple name (None = anonymous), fields (label, value)
     Tup(Option<String>, Vec<(Option<String>, T)>),
 }
@@ -31,6 +33,7 @@ impl T {
         match self {
             T::Leaf(n) => format!("(l {})", hx(n)),
             T::Int(d) => format!("(i {d})"),
+            T::Str(v) => format!("(s {})", hx(v)),
             T::Bin(h) => format!("(b {})", if h.is_empty() { "-" } else { h }),
             T::Tup(name, fs) => {
                 let mut s = format!("(t {}", name.as_ref().map_or("_".to_string(), |n| hx(n)));
@@ -52,6 +55,7 @@ impl T {
             T::Leaf(n) => n.clone(),
             T::Int(d) => d.clone(),
             T::Bin(h) => format!("0x{h}"),
+            T::Str(v) => format!("\"{}\"", escape_single(v)),
             T::Tup(Some(n), fs) if fs.is_empty() => n.clone(),
             T::Tup(name, fs) => format!(
                 "{}[{}]",
@@ -82,6 +86,7 @@ impl T {
                 _ => d.clone(),
             },
             T::Bin(h) => format!("0x{}", if r.chance(1, 3) { h.to_uppercase() } else { h.clone() }),
+            T::Str(v) => format!("\"{}\"", escape_single(v)),
             T::Tup(Some(n), fs) if fs.is_empty() && r.chance(2, 3) => n.clone(),
             T::Tup(name, fs) => {
                 let mut s = format!("{}[", name.as_deref().unwrap_or(""));
@@ -156,6 +161,36 @@ fn tuple_name(r: &mut Rng) -> String {
     s
 }
 
+/// `escape_single_line_text` (written out here so that the source does not depend on the formatter)
+fn escape_single(v: &str) -> String {
+    let mut out = String::new();
+    for c in v.chars() {
+        match c {
+            '\\' => out.push_str("\\\\"),
+            '"' => out.push_str("\\\""),
+            '{' => out.push_str("\\{"),
+            '\n' => out.push_str("\\n"),
+            '\r' => out.push_str("\\r"),
+            '\t' => out.push_str("\\t"),
+            c => out.push(c),
+        }
+    }
+    out
+}
+
+fn str_value(r: &mut Rng) -> String {
+    let pool: &[&str] = &[
+        "a", "b", " ", "  ", "\\", "\"", "{", "}", "\n", "\r", "\t", "\u{a0}", "\u{2003}", "\0", "é", "漢", "//", ",", "]", "[", "0x", "~>",
+        "\u{b}", "\u{c}", "\u{85}", "x y", "'", "=", ":", "|",
+    ];
+    let n = match r.below(6) {
+        0 => 0,
+        1..=3 => 1 + r.usize(4),
+        _ => 5 + r.usize(40),
+    };
+    (0..n).map(|_| *r.pick(pool)).collect()
+}
+
 fn int_text(r: &mut Rng) -> String {
     let digits = match r.below(6) {
         0 => "0".to_string(),
@@ -186,7 +221,8 @@ pub fn gen_term(r: &mut Rng, depth: usize) -> T {
     if depth == 0 || r.chance(2, 5) {
         return match r.below(8) {
             0 | 1 => T::Tup(Some(tuple_name(r)), vec![]),
-            2 | 3 => T::Int(int_text(r)),
+            2 => T::Int(int_text(r)),
+            3 => T::Str(str_value(r)),
             4 => T::Bin(bin_text(r)),
             _ => T::Leaf(name(r)),
         };
@@ -212,6 +248,11 @@ pub fn gen_term(r: &mut Rng, depth: usize) -> T {
 
 fn term_of(t: &Term) -> Option<T> {
     match t {
+        Term::String(quiver_compiler::ast::StringStyle::Single, segs, _) => match segs.as_slice() {
+            [] => Some(T::Str(String::new())),
+            [quiver_compiler::ast::StrSegment::Text(bytes)] => String::from_utf8(bytes.clone()).ok().map(T::Str),
+            _ => None,
+        },
         Term::Literal(Literal::Integer(v)) => Some(T::Int(v.to_string())),
         Term::Literal(Literal::Binary(bytes)) => Some(T::Bin(bytes.iter().map(|b| format!("{b:02x}")).collect())),
         Term::Access(a) => match (&a.source, a.accessors.is_empty()) {
